@@ -5,6 +5,7 @@ instantiated at an arbitrary ordered field `K` with an arbitrary floor function 
 (`IsFloor fl : ∀ z, fl z ≤ z < fl z + 1`).
 -/
 import Mahotas.Proofs.C18Shift
+import Mahotas.Proofs.C18Filter
 import Mathlib.Data.Rat.Floor
 
 open Mahotas Mahotas.C18
@@ -134,6 +135,57 @@ theorem C18_integer_weights {K : Type} [Field K] [LinearOrder K] [IsStrictOrdere
   · simp only [startIdx, q_half, h.int_half]; simp
   · simp [startIdx, h.int]
   · simp only [startIdx, q_half, h.int_half]; simp
+
+/-- **C18-T4 (partial: one-pole prefilter, every sample but the first).** For orders 2 and 3
+`spline_filter1d` runs, per line, `line *= weight` and then the causal and anti-causal recursions for the single
+pole `z` (`onePole`, the definition the driver runs). If `z` is an exact root of `z² + 6z + 1` (order 2,
+`√8 − 3`) resp. `z² + 4z + 1` (order 3, `√3 − 2`) then `weight = (1−z)(1−1/z)` is 8 resp. 6 and the resulting
+coefficients `c` satisfy, for **any** initial value `c0` of the causal pass (the code's truncated or full
+geometric sum), `⅛c[k−1] + ¾c[k] + ⅛c[k+1] = f[k]` resp. `⅙c[k−1] + ⅔c[k] + ⅙c[k+1] = f[k]` at every interior
+sample `1 ≤ k ≤ n−2`, and the same with the mirrored knot `c[n] = c[n−2]` at the last sample: by
+`C18_integer_weights` this is "the B-spline expansion reproduces the input at the sample points" for all samples
+`k ≥ 1`. **Missing**: sample 0 (it depends on the initialisation of the causal sum, which the code cuts at
+`e^−16`; there the property holds to about `1e−7` only and is checked numerically), the two-pole orders 4 and 5,
+and the fact that the floating-point poles are only approximate roots. -/
+theorem C18_prefilter_inverts_partial {K : Type} [Field K] (z c0 : K) (n : Nat) (hn : 2 ≤ n)
+    (hz1 : z * z - 1 ≠ 0) (f : Nat → K) :
+    (z * z + 6 * z + 1 = 0 → (8 : K) ≠ 0 →
+      (1 - z) * (1 - 1 / z) = 8 ∧
+      (∀ k, 1 ≤ k → k + 2 ≤ n →
+        1 / 8 * onePole z c0 n (fun i => 8 * f i) (k - 1) + 3 / 4 * onePole z c0 n (fun i => 8 * f i) k
+          + 1 / 8 * onePole z c0 n (fun i => 8 * f i) (k + 1) = f k) ∧
+      1 / 8 * onePole z c0 n (fun i => 8 * f i) (n - 2) + 3 / 4 * onePole z c0 n (fun i => 8 * f i) (n - 1)
+          + 1 / 8 * onePole z c0 n (fun i => 8 * f i) (n - 2) = f (n - 1)) ∧
+    (z * z + 4 * z + 1 = 0 → (6 : K) ≠ 0 →
+      (1 - z) * (1 - 1 / z) = 6 ∧
+      (∀ k, 1 ≤ k → k + 2 ≤ n →
+        1 / 6 * onePole z c0 n (fun i => 6 * f i) (k - 1) + 2 / 3 * onePole z c0 n (fun i => 6 * f i) k
+          + 1 / 6 * onePole z c0 n (fun i => 6 * f i) (k + 1) = f k) ∧
+      1 / 6 * onePole z c0 n (fun i => 6 * f i) (n - 2) + 2 / 3 * onePole z c0 n (fun i => 6 * f i) (n - 1)
+          + 1 / 6 * onePole z c0 n (fun i => 6 * f i) (n - 2) = f (n - 1)) := by
+  constructor
+  · intro hz h8
+    have h2 : (2 : K) ≠ 0 := fun h => h8 (by linear_combination 4 * h)
+    have h4 : (4 : K) ≠ 0 := fun h => h8 (by linear_combination 2 * h)
+    refine ⟨by rw [poleWeight_eq z 6 hz]; norm_num, ?_, ?_⟩
+    · intro k h1 h2'
+      have := onePole_interior z 6 c0 hz n (fun i => 8 * f i) k h1 h2'
+      field_simp
+      linear_combination 4 * this
+    · have := onePole_last z 6 c0 hz hz1 n hn (fun i => 8 * f i)
+      field_simp
+      linear_combination 4 * this
+  · intro hz h6
+    have h2 : (2 : K) ≠ 0 := fun h => h6 (by linear_combination 3 * h)
+    have h3 : (3 : K) ≠ 0 := fun h => h6 (by linear_combination 2 * h)
+    refine ⟨by rw [poleWeight_eq z 4 hz]; norm_num, ?_, ?_⟩
+    · intro k h1 h2'
+      have := onePole_interior z 4 c0 hz n (fun i => 6 * f i) k h1 h2'
+      field_simp
+      linear_combination 3 * this
+    · have := onePole_last z 4 c0 hz hz1 n hn (fun i => 6 * f i)
+      field_simp
+      linear_combination 3 * this
 
 /-- **C18-T3 (shape and corners).** `zoom` onto a requested shape returns an image of exactly that shape
 (also through `resize_to`, `resize_rgb_to`, `imresize` with an integer size, which pass the requested
